@@ -20,6 +20,9 @@ def states(cases, out):
         for oi, (op, o) in enumerate(zip(c['ops'], r)):
             if op[0] in 'awpq' and o['st'] == 'ok' and isinstance(o['ord'], list):
                 res.append((ci, oi, [names.get(i, '?') for i in o['ord']]))
+                if sorted(o['uno']) != sorted(o['ord']):
+                    # the element HOLDS the children of its insertion-ordered view: when the views disagree (C06's business) both are judged
+                    res.append((ci, oi, [names.get(i, '?') for i in o['uno']]))
     return res
 
 
@@ -32,6 +35,16 @@ def judge(m, cases, out):
     d = m.dead([(t, list(ns)) for t, ns in keys])
     for k, v in zip(keys, d):
         uniq[k] = v
+    # the verified judge is sound but not complete: for what it leaves open, an exhaustive search over (derivative, remaining children) pairs
+    # (Python toolkit): no word dominates <=> the search space is exhausted without a witness
+    regs = {}
+    for (t, ns), v in list(uniq.items()):
+        if not v:
+            if t not in regs:
+                regs[t] = rx.of_tree(m.g['templates'][t])
+            w, exhausted = rx.cover_word_ex(regs[t], list(ns), limit=20000)
+            if w is None and exhausted:
+                uniq[(t, ns)] = 'search'
     bad = []
     seen = set()
     for ci, oi, ns in st:
@@ -46,7 +59,7 @@ def sweep_failures(m, cases, io, mo):
     out = []
     for ci, oi, ns in bad:
         pred = all(proj(None, io[ci][k]) == proj(None, mo[ci][k]) for k in range(oi + 1))
-        out.append((ci, oi, 'accepted state %s is provably dead' % ns, pred))
+        out.append((ci, oi, 'accepted state %s is a dead end' % ns, pred))
     return out
 
 
@@ -57,19 +70,20 @@ def run(rep):
     try:
         m = corp.m
         bad, st, uniq = judge(m, corp.cases, corp.impl)
+        corp_uniq = uniq
         seen = set()
         for ci, oi, ns in bad:
             c = corp.cases[ci]
             key = 'C07:' + matcher.cause_key(c['type'], c['ops'][:oi + 1])
             predicted = corp.model_agrees(ci, oi, proj)
             rp = {'type': c['type'], 'ops': c['ops'][:oi + 1], 'children': ns, 'model_predicts': predicted,
-                  'why': 'the operation is accepted but no word of the content model contains these children (verified judge)'}
+                  'why': 'the operation is accepted but no word of the content model contains these children (%s)' % ('verified judge Parikh.dead' if corp_uniq.get((c['type'], tuple(sorted(ns)))) is True else 'exhaustive search over derivatives; the verified judge leaves it open')}
             if predicted:
                 if key not in seen:
                     seen.add(key)
-                    rep.finding_or_violation(key, '%s: accepted children %s are provably a dead end' % (c['type'], ns), rp)
+                    rep.finding_or_violation(key, '%s: accepted children %s are a dead end' % (c['type'], ns), rp)
             else:
-                rep.violation('%s: accepted children %s are provably a dead end (the pinned model does not predict this)' % (c['type'], ns), rp)
+                rep.violation('%s: accepted children %s are a dead end (the pinned model does not predict this)' % (c['type'], ns), rp)
         # alive side: witnesses for the non-dead states, confirmed by the verified checker; a sample completed on the implementation
         rng = random.Random(rep.seed)
         live = [k for k, v in uniq.items() if not v]
@@ -84,7 +98,7 @@ def run(rep):
                 wits.append((t, list(ns), w))
         okw = m.witness(wits)
         confirmed = sum(okw)
-        corp.coverage({'accepted_states_judged': len(st), 'distinct_states': len(uniq), 'proved_dead': sum(1 for v in uniq.values() if v),
+        corp.coverage({'accepted_states_judged': len(st), 'distinct_states': len(uniq), 'proved_dead': sum(1 for v in uniq.values() if v is True), 'dead_by_exhaustive_search': sum(1 for v in uniq.values() if v == 'search'),
                        'alive_witness_confirmed': confirmed, 'unknown': unknown + (len(wits) - confirmed)})
     finally:
         corp.close()
